@@ -29,6 +29,12 @@ class DUModel:
     successors: 'dict[Key[Definition], set[Key[Definition]]]'
     use_to_def: 'dict[Key[UseSite], Key[Definition]]'
 
+    def find_def_from_use(self, site):
+        """mirror of DefineUseAnalysis.find_def_from_use (3 lines; the stand-in has no code of its own otherwise)"""
+        if site in self.use_to_def:
+            return self.use_to_def[site]
+        raise KeyError(f'no definition found for site {site}')
+
 
 class FuncDefM(FuncDef):
     """stand-in FuncDef; GHOST field `def_use` = the result of DefineUse.analyze on this function
@@ -45,6 +51,8 @@ KEY_ATTRS = {
     'DefSite.target': 'Assign -> Key[Target]',
     'DefSite.expr': 'Assign -> Key[Expr]',
     'Expr.name': 'Var -> Key[NamedId]',
+    'UseSite.name': 'Var -> Key[NamedId]',
+    'UseSite.loc': 'Key[Location]',
 }
 
 
